@@ -131,7 +131,7 @@ func eligible(path string, cfg proj.Config) bool {
 		}
 	}
 	if cfg.SkipNested && (dir == "nested" || strings.HasPrefix(dir, "nested/") || dir == "plugin" || strings.HasPrefix(dir, "plugin/") ||
-		dir == "examples/quickstart" || strings.HasPrefix(dir, "examples/quickstart/")) {
+		dir == "examples/quickstart" || strings.HasPrefix(dir, "examples/quickstart/") || dir == "emptymod") {
 		return false
 	}
 	if strings.HasPrefix(path, cfg.PkgPath+"/") {
@@ -258,7 +258,7 @@ func (c *e2eCtx) trackAndJudge(s *scenario, decoys bool, r *rand.Rand) {
 	}
 	if decoys {
 		// conversely: changed Go files not excluded by the rules must be considered
-		for _, p := range []string{"vendorx/v.go", "ignoredirx/i.go", "pkg/l0/mv_in.go", "nested/n.go", "nested/sub/n.go", "pluginapi/api.go", "_examples/hello/hello.go", ".hidden/h/h.go"} {
+		for _, p := range []string{"vendorx/v.go", "ignoredirx/i.go", "pkg/l0/mv_in.go", "nested/n.go", "nested/sub/n.go", "emptymod/e.go", "pluginapi/api.go", "_examples/hello/hello.go", ".hidden/h/h.go"} {
 			if _, ok := s.newTree[p]; ok && eligible(p, s.cfg) && in.Markers[p] == 0 {
 				c.violate("C13", fmt.Sprintf("%s is a changed eligible Go file (its directory name merely starts with an ignored name, or it was moved here from an excluded directory) but was not instrumented", p), rp(map[string]any{"file": p}))
 			}
